@@ -162,6 +162,8 @@ func (s *Scanner) init(input string) error {
 			return s.error(s.pos, "no input found after delimiter %q", d)
 		}
 		s.input = parts[1]
+		// Positions are reported relative to the original input.
+		s.total = len(input) - len(parts[1])
 	}
 	return nil
 }
